@@ -29,12 +29,15 @@ type World struct {
 	FnOf map[*Contract]*ssa.Function
 	// implementations declared for interface contracts: iface key -> list of concrete types
 	Errors []string
+	// package invariants: package path -> clauses (assumed at entry of the package's functions,
+	// proved at the end of the package initialiser and at every return of functions under contract)
+	PkgInv map[string][]*PkgInvariant
 }
 
 func loadWorld(p *Program, specDirs []string) (*World, error) {
 	w := &World{P: p, Contracts: map[string]*Contract{}, Funcs: map[string]*SpecFunc{}, AxByName: map[string]*Axiom{},
 		Types: map[string]*DataType{}, Ghosts: map[string]*GhostVar{}, ImportsOf: map[*Contract]map[string]string{},
-		FnOf: map[*Contract]*ssa.Function{}}
+		FnOf: map[*Contract]*ssa.Function{}, PkgInv: map[string][]*PkgInvariant{}}
 	addFile := func(sf *SpecFile, pkg string) {
 		for _, f := range sf.Funcs {
 			if _, dup := w.Funcs[f.Name]; dup {
@@ -52,6 +55,9 @@ func loadWorld(p *Program, specDirs []string) (*World, error) {
 		for _, g := range sf.Ghosts {
 			w.Ghosts[g.Name] = g
 			w.GhostList = append(w.GhostList, g.Name)
+		}
+		for _, iv := range sf.Invariants {
+			w.PkgInv[iv.Pkg] = append(w.PkgInv[iv.Pkg], iv)
 		}
 		for _, c := range sf.Contracts {
 			w.ImportsOf[c] = sf.Imports
